@@ -13,11 +13,12 @@ import (
 // call delivers an arbitrary count between 1 and what fits (every division of
 // the stream into short reads is a path).
 type vpPlainReader struct {
-	b     []byte
-	pos   int
-	chunk int
-	arb   bool
-	once  bool // one multi-byte call, any of them, is cut short anywhere
+	b           []byte
+	pos         int
+	chunk       int
+	arb         bool
+	once        bool // one multi-byte call, any of them, is cut short anywhere
+	eofWithData bool // the read that delivers the last byte of the stream also returns io.EOF (as flate, TLS and some pipes do)
 }
 
 // vpSchedCut: fixed chunks of 1..3 bytes, or contiguous delivery with one short
@@ -33,10 +34,11 @@ func vpSchedCut(b []byte) *vpPlainReader {
 // vpSched: fixed chunks of 1..3 bytes, or an arbitrary schedule.
 func vpSched(b []byte) *vpPlainReader {
 	k := vp.Choice(4)
+	e := vp.Bool()
 	if k == 3 {
-		return &vpPlainReader{b: b, arb: true}
+		return &vpPlainReader{b: b, arb: true, eofWithData: e}
 	}
-	return &vpPlainReader{b: b, chunk: 1 + k}
+	return &vpPlainReader{b: b, chunk: 1 + k, eofWithData: e}
 }
 
 func (r *vpPlainReader) Read(p []byte) (int, error) {
@@ -63,6 +65,9 @@ func (r *vpPlainReader) Read(p []byte) (int, error) {
 	}
 	copy(p, r.b[r.pos:r.pos+n])
 	r.pos += n
+	if r.eofWithData && r.pos == len(r.b) {
+		return n, io.EOF
+	}
 	return n, nil
 }
 
